@@ -5,6 +5,7 @@ import (
 	"fmt"
 	"io"
 	"net"
+	"runtime"
 	"strings"
 	"sync"
 	"sync/atomic"
@@ -19,7 +20,7 @@ func init() {
 	register(&Check{
 		ID: "C08", Level: "exploration", Primary: "cells", EvalCount: "connections_checked",
 		Rule: "matrix: connection endings {client FIN, client RST, Unbind, malformed frame, unsupported operation, mid-frame disconnect, read-timeout expiry, recovered panic in an inline (unbind-route) handler, " +
-			"recovered panic in a request-goroutine handler followed by FIN, server Stop} x in-flight states {no handler, k handlers parked on a harness gate (with distinct message IDs, all with the same one, and parked only after they have sent their final response), handlers writing large responses, slow requests sent in the same write as the ending (dispatched just before the connection ends), the inline StartTLS handler blocked in a handshake the client never completes (plain transport; endings FIN, RST, read timeout, Stop), the same with two handlers of earlier requests parked, two handlers parked BEFORE a StartTLS upgrade that succeeds (endings FIN, RST, Stop), a parked handler next to one that writes a large response nobody reads (ending Stop; the client probes the server's socket by writing, seconds later)} x transports {plain, TLS listener, " +
+			"recovered panic in a request-goroutine handler followed by FIN, server Stop} x in-flight states {no handler, k handlers parked on a harness gate (with distinct message IDs, all with the same one, and parked only after they have sent their final response), handlers writing large responses, slow requests sent in the same write as the ending (dispatched just before the connection ends), the inline StartTLS handler blocked in a handshake the client never completes (plain transport; endings FIN, RST, read timeout, Stop), the same with two handlers of earlier requests parked, two handlers parked BEFORE a StartTLS upgrade that succeeds (endings FIN, RST, Stop), a parked handler next to one that writes a large response nobody reads (ending Stop; the client probes the server's socket by writing, seconds later), 4 handlers parked behind 66 that were dispatched before them and have returned (endings FIN, Unbind, Stop, RST), a parked handler next to one that left its goroutine with runtime.Goexit after answering (endings FIN, Unbind, Stop)} x transports {plain, TLS listener, " +
 			"StartTLS-upgraded}; every connection first makes one verified round trip (this maps the client socket to its ConnectionID). For endings where the client stays connected the gate is opened only after the " +
 			"client has watched its socket for a grace period: an EOF seen before the release is a certain violation. Offline oracle over the event log per connection ID: exactly one OnClose, stamped after " +
 			"the exit of every handler of that connection; at quiescence no goroutine with a gldap frame and no socket descriptor remain. distinct_nontrivial = distinct (ending, in-flight, transport) cells exercised",
@@ -27,7 +28,7 @@ func init() {
 		Phases: func(tier string, seed int64) []Phase {
 			return []Phase{{Name: "matrix", Run: c08Run}}
 		},
-		MinObserved: []string{"connections_checked", "onclose_events", "handler_exits_recorded", "eof_withheld_until_release_observed", "just_dispatched_endings_checked", "endings_with_a_starttls_handshake_pending", "connections_closed_while_another_connection_waits_for_its_handler", "connections_with_failed_writes_next_to_a_parked_handler", "tls_connections_ended_before_the_handshake", "endings_with_parked_handlers_and_a_starttls_handshake_pending", "endings_of_connections_upgraded_while_handlers_were_parked", "stop_endings_on_a_server_without_panic_recovery", "stop_endings_with_a_parked_handler_next_to_a_writer_nobody_reads"},
+		MinObserved: []string{"connections_checked", "endings_with_handlers_parked_behind_more_than_64_that_returned", "endings_after_a_handler_left_its_goroutine_by_goexit", "onclose_events", "handler_exits_recorded", "eof_withheld_until_release_observed", "just_dispatched_endings_checked", "endings_with_a_starttls_handshake_pending", "connections_closed_while_another_connection_waits_for_its_handler", "connections_with_failed_writes_next_to_a_parked_handler", "tls_connections_ended_before_the_handshake", "endings_with_parked_handlers_and_a_starttls_handshake_pending", "endings_of_connections_upgraded_while_handlers_were_parked", "stop_endings_on_a_server_without_panic_recovery", "stop_endings_with_a_parked_handler_next_to_a_writer_nobody_reads"},
 	})
 }
 
@@ -40,6 +41,8 @@ type c08Track struct {
 	handlers []*c08HEv
 	entered  atomic.Int64
 	gate     chan struct{}
+	early    chan struct{} // a second gate, opened before the ending ("parkearly" handlers)
+	exited   atomic.Int64  // handlers that have run to their end
 }
 
 type c08World struct {
@@ -55,7 +58,7 @@ func (wd *c08World) track(tag string) *c08Track {
 	defer wd.mu.Unlock()
 	t := wd.byTag[tag]
 	if t == nil {
-		t = &c08Track{tag: tag, gate: make(chan struct{})}
+		t = &c08Track{tag: tag, gate: make(chan struct{}), early: make(chan struct{})}
 		wd.byTag[tag] = t
 	}
 	return t
@@ -85,6 +88,14 @@ func (wd *c08World) register(m *gldap.Mux) {
 			return
 		case "park":
 			<-t.gate
+		case "parkearly":
+			<-t.early
+		case "goexit":
+			// the handler ends its goroutine without returning (what t.FailNow and require.* do in a test double's
+			// handler): it has ended all the same
+			w.Write(r.NewSearchDoneResponse(gldap.WithResponseCode(0)))
+			ev.Exit = nextSeq()
+			runtime.Goexit()
 		case "slow":
 			time.Sleep(60 * time.Millisecond)
 		case "write":
@@ -114,6 +125,7 @@ func (wd *c08World) register(m *gldap.Mux) {
 		}
 		w.Write(r.NewSearchDoneResponse(gldap.WithResponseCode(0)))
 		ev.Exit = nextSeq()
+		t.exited.Add(1)
 	})
 	m.ExtendedOperation(func(w *gldap.ResponseWriter, r *gldap.Request) {
 		w.Write(r.NewExtendedResponse(gldap.WithResponseCode(0)))
@@ -235,6 +247,29 @@ func c08OneCell(c *Ctx, wd *c08World, srv *Srv, cell c08Cell, stopper func()) {
 		for i := 0; i < k; i++ {
 			cl.Send(c08Search(int64(10+i), tag+";write"))
 		}
+	case "parked-behind-many-that-returned":
+		// 66 handlers that return before the ending, 4 more (dispatched after them) that stay parked: more requests in
+		// flight at once than any fixed-size bookkeeping of 64 would hold
+		k = 70
+		for i := 0; i < 66; i++ {
+			cl.Send(c08Search(int64(10+i), tag+";parkearly"))
+		}
+		for i := 66; i < k; i++ {
+			cl.Send(c08Search(int64(10+i), tag+";park"))
+		}
+		for dl := time.Now().Add(patience); t.entered.Load() < int64(1+k) && time.Now().Before(dl); {
+			time.Sleep(100 * time.Microsecond)
+		}
+		close(t.early)
+		for dl := time.Now().Add(patience); t.exited.Load() < 67 && time.Now().Before(dl); {
+			time.Sleep(200 * time.Microsecond)
+		}
+		c.Count("endings_with_handlers_parked_behind_more_than_64_that_returned", 1)
+	case "left-by-goexit":
+		k = 2
+		cl.Send(c08Search(10, tag+";goexit"))
+		cl.Send(c08Search(11, tag+";park"))
+		c.Count("endings_after_a_handler_left_its_goroutine_by_goexit", 1)
 	case "parked+writer-not-read":
 		// one handler parked on the gate, another one writing a large response that the client does not read
 		k = 2
@@ -379,7 +414,7 @@ func c08OneCell(c *Ctx, wd *c08World, srv *Srv, cell c08Cell, stopper func()) {
 		// is still running
 		time.Sleep(time.Duration(c.N(2200, 4000)) * time.Millisecond)
 	}
-	if clientStays && (cell.Inflight == "parked" || cell.Inflight == "parked-same-id" || cell.Inflight == "parked-after-answering" || cell.Inflight == "parked+handshake-pending" || cell.Inflight == "parked-across-upgrade" || cell.Inflight == "parked+writer-not-read") {
+	if clientStays && (cell.Inflight == "parked" || cell.Inflight == "parked-behind-many-that-returned" || cell.Inflight == "left-by-goexit" || cell.Inflight == "parked-same-id" || cell.Inflight == "parked-after-answering" || cell.Inflight == "parked+handshake-pending" || cell.Inflight == "parked-across-upgrade" || cell.Inflight == "parked+writer-not-read") {
 		watch := 150 * time.Millisecond
 		if cell.Ending == "stop" {
 			// a server-initiated ending: hold the handlers well beyond any plausible internal grace period
@@ -756,6 +791,10 @@ func c08RunWith(c *Ctx, writeEntries, sweeps int) {
 		cells = append(cells, c08Cell{e, "parked-across-upgrade", "plain"})
 	}
 	cells = append(cells, c08Cell{"stop", "parked+writer-not-read", "plain"}, c08Cell{"stop", "parked+writer-not-read", "tls"})
+	for _, e := range []string{"fin", "unbind", "stop"} {
+		cells = append(cells, c08Cell{e, "parked-behind-many-that-returned", "plain"}, c08Cell{e, "left-by-goexit", "plain"})
+	}
+	cells = append(cells, c08Cell{"rst", "parked-behind-many-that-returned", "tls"}, c08Cell{"fin", "left-by-goexit", "starttls"})
 	reps := c.N(1, 50)
 	if sweeps > 0 {
 		reps = sweeps
